@@ -2,6 +2,7 @@ package harness
 
 import (
 	"bytes"
+	"errors"
 	"io"
 	"strings"
 
@@ -20,7 +21,7 @@ func init() {
 			"ingest.MutableOverlayWorld over a basic or compact base",
 		},
 		Stubs: []string{
-			"simulated disk (harness): an in-memory file; writes are recorded as issued, reads are served in tape-chosen fragments (1 byte .. whole request)",
+			"simulated disk (harness): an in-memory file; writes are recorded as issued, reads are served in tape-chosen fragments (1 byte .. whole request); in the I/O-error configuration (30% of runs) it also fills up after a tape-chosen number of bytes (export must report an error) and has a bad sector at a tape-chosen offset (import must report an error)",
 		},
 		Assumptions: []string{
 			"'restart' = the live world is dropped and a fresh MutableOverlayWorld over the same base applies the exported file; placed at tape-chosen points of the history, after which the same further operations are applied to both worlds",
@@ -39,15 +40,38 @@ type shortReader struct {
 	off  int
 	mode int
 	n    int
+	// failAt >= 0: an I/O error (not EOF) is returned once this many bytes
+	// have been served; failed is set when that happened
+	failAt   int
+	hasFail  bool
+	failed   bool
+	failures int
 }
 
+var errInjectedRead = errors.New("injected read error (simulated disk)")
+var errInjectedWrite = errors.New("injected write error: no space left on simulated disk")
+
+//go:norace
 func (r *shortReader) Read(p []byte) (int, error) {
+	if r.hasFail && r.off >= r.failAt {
+		r.failed = true
+		r.failures++
+		return 0, errInjectedRead
+	}
 	if r.off >= len(r.data) {
 		return 0, io.EOF
 	}
 	max := len(p)
 	if rem := len(r.data) - r.off; rem < max {
 		max = rem
+	}
+	if r.hasFail && r.off+max > r.failAt {
+		max = r.failAt - r.off // serve the bytes before the bad sector first
+		if max == 0 {
+			r.failed = true
+			r.failures++
+			return 0, errInjectedRead
+		}
 	}
 	n := max
 	switch r.mode {
@@ -72,10 +96,26 @@ func (r *shortReader) Read(p []byte) (int, error) {
 type chunkWriter struct {
 	buf    bytes.Buffer
 	writes int
+	// hasFail: the disk is full after failAt bytes; the write that crosses
+	// the limit stores what fits and returns an error, as do all later ones
+	failAt  int
+	hasFail bool
+	failed  bool
 }
 
 func (w *chunkWriter) Write(p []byte) (int, error) {
 	w.writes++
+	if w.hasFail {
+		room := w.failAt - w.buf.Len()
+		if room < len(p) {
+			w.failed = true
+			if room > 0 {
+				w.buf.Write(p[:room])
+				return room, errInjectedWrite
+			}
+			return 0, errInjectedWrite
+		}
+	}
 	return w.buf.Write(p)
 }
 
@@ -111,6 +151,11 @@ func runC18(rc *RC) {
 	mix := opMix{noInvalid: true, richTypes: true, geometryPct: 55}
 	readMode := rc.Draw(4)
 	rc.Knob("read-mode", readMode)
+	// I/O error configuration (kept apart from the fault-free one): at each
+	// export point the export is also run against a disk that fills up, and
+	// the import against a disk with a bad sector; neither may report success
+	ioFaults := rc.Pct(30)
+	rc.Knob("io-faults", map[bool]int{false: 0, true: 1}[ioFaults])
 	nontrivial := false
 	for i := 0; i < steps && !rc.Failed(); i++ {
 		o := g.genOp(mix)
@@ -153,6 +198,35 @@ func runC18(rc *RC) {
 		if bytes.Count(data, []byte("\nid:"))+1 >= 2 || bytes.Count(data, []byte("---")) >= 1 {
 			nontrivial = true
 		}
+		if ioFaults && len(data) > 0 {
+			full := chunkWriter{hasFail: true, failAt: rc.Draw(len(data))}
+			rc.Configured("disk-full")
+			var ferr error
+			if !rc.Guard(name+"/panic", func() { ferr = ingest.ExportChangesAsYAML(w, &full) }) {
+				return
+			}
+			if full.failed {
+				rc.Fired("disk-full")
+				if ferr == nil {
+					rc.Fail(name+"/export-reported-success-on-full-disk", "the disk was full after %d of %d bytes (writes beyond that returned an error) but ExportChangesAsYAML returned nil: the caller believes the %d-byte file is complete", full.failAt, len(data), full.buf.Len())
+					return
+				}
+			}
+			bad := &shortReader{rc: rc, data: data, mode: readMode, hasFail: true, failAt: rc.Draw(len(data))}
+			rc.Configured("read-error")
+			scratch := ingest.NewMutableOverlayWorld(bw)
+			var berr error
+			if !rc.Guard(name+"/panic", func() { _, berr = ingest.IngestChangesFromYAML(bad).Apply(scratch) }) {
+				return
+			}
+			if bad.failed {
+				rc.Fired("read-error")
+				if berr == nil {
+					rc.Fail(name+"/import-reported-success-after-read-error", "reading the %d-byte file failed with an I/O error at byte %d but IngestChangesFromYAML(...).Apply returned nil: the caller believes the whole file was applied", len(data), bad.failAt)
+					return
+				}
+			}
+		}
 		// restart: drop the live world's twin, rebuild from base + file
 		fresh := ingest.NewMutableOverlayWorld(bw)
 		sr := &shortReader{rc: rc, data: data, mode: readMode}
@@ -173,9 +247,27 @@ func runC18(rc *RC) {
 		// including tokens whose posting lists have become empty, which is
 		// a property of the index's history, not an answer about features.
 		a, b := Observe(w, ids, full).Without("tokens"), Observe(fresh, ids, full).Without("tokens")
-		if d := a.Diff(b, 1); len(d) > 0 {
-			rc.Fail(name+"/restarted-world-differs:"+c18DiffClass(d[0]), "after export at step %d and import into a fresh world, the worlds differ:\n%s\nfile:\n%s", i, a.DiffString(b, "edited   ", "restarted"), clipS(string(data), 2500))
+		// The two known cross-world differences (DESIGN.md 16.4: Traverse
+		// over overlay-resident paths, "(all)" searches and untagged points)
+		// are looked at last and do not end the run: anything else that
+		// differs, now or later in the history, takes precedence.
+		known := func(k string) bool {
+			return section(k) == "trav" || strings.HasPrefix(k, "find/(all)") || strings.HasPrefix(k, "find/(feature-type point (all))")
+		}
+		var rest, soft []string
+		for _, k := range a.Diff(b, 1<<20) {
+			if known(k) {
+				soft = append(soft, k)
+			} else {
+				rest = append(rest, k)
+			}
+		}
+		if len(rest) > 0 {
+			rc.Fail(name+"/restarted-world-differs:"+c18DiffClass(rest[0]), "after export at step %d and import into a fresh world, the worlds differ:\n%s\nfile:\n%s", i, a.DiffString(b, "edited   ", "restarted"), clipS(string(data), 2500))
 			return
+		}
+		if len(soft) > 0 {
+			rc.FailSoft(name+"/restarted-world-differs:"+c18DiffClass(soft[0]), "after export at step %d and import into a fresh world, the worlds differ:\n%s\nfile:\n%s", i, a.DiffString(b, "edited   ", "restarted"), clipS(string(data), 2500))
 		}
 		twin = fresh
 	}
